@@ -368,6 +368,9 @@ def cert_option(rng, critical):
                        sk.SshCertExtensionPermitPTY, sk.SshCertExtensionPermitUserRC])()
 
 
+MAX_EPOCH_SECONDS = 253402300799        # 9999-12-31T23:59:59Z (Lean: maxEpochSeconds)
+
+
 def certificate(kind):
     def gen(rng):
         import datetime
@@ -377,14 +380,19 @@ def certificate(kind):
         cls = getattr(sk, 'SshHostCertificateV01' + kind)
         plain = {'RSA': key_rsa, 'DSS': key_dss, 'ECDSA': key_ecdsa, 'EDDSA': key_eddsa}[kind](rng)
         def stamp():
-            # 0, 2^32-1 and ordinary instants; in UTC or as the same instant in a zone with a non-UTC offset
-            t = datetime.datetime.fromtimestamp(
-                rng.choice([0, 0, 1, 1600000000, 2 ** 31 - 1, 2 ** 31, 2 ** 32 - 1, 2 ** 32 - 1, rng.getrandbits(32)]),
-                dateutil.tz.UTC)
+            # 0, 2^32-1 and ordinary instants, and - the fields are 64 bits wide - instants beyond 32 bits up to the last
+            # second a datetime carries; in UTC, as the same instant in a zone with a non-UTC offset, or naive
+            secs = rng.choice([0, 0, 1, 1600000000, 2 ** 31 - 1, 2 ** 31, 2 ** 32 - 1, 2 ** 32 - 1, rng.getrandbits(32),
+                               2 ** 32, 2 ** 32 + 5, 7258118400, MAX_EPOCH_SECONDS, MAX_EPOCH_SECONDS - 1,
+                               rng.randrange(2 ** 32, MAX_EPOCH_SECONDS + 1)])
+            t = datetime.datetime(1970, 1, 1, tzinfo=dateutil.tz.UTC) + datetime.timedelta(seconds=secs)
             if rng.random() < 0.4:
-                offset = rng.choice([datetime.timedelta(hours=1), datetime.timedelta(hours=-5),
-                                     datetime.timedelta(hours=5, minutes=30)])
-                t = t.astimezone(datetime.timezone(offset))
+                offsets = [datetime.timedelta(hours=-5)]
+                if secs < MAX_EPOCH_SECONDS - 86400:       # a positive offset would leave the calendar at its very end
+                    offsets += [datetime.timedelta(hours=1), datetime.timedelta(hours=5, minutes=30)]
+                t = t.astimezone(datetime.timezone(rng.choice(offsets)))
+            elif rng.random() < 0.25:
+                t = t.replace(tzinfo=None)      # naive: the library takes it as UTC at construction
             return t
 
         return cls(
@@ -445,6 +453,47 @@ ALL_GENERATORS += [
     ('SshCertCriticalOptionVector', option_vector(True)),
     ('SshCertExtensionVector', option_vector(False)),
     ('SshCertValidPrincipals', principals),
+]
+
+def raw_certificate(kind):
+    """certificate wire forms no compose() produces: the 64-bit validity fields hold the all-ones value (valid_after:
+    InvalidValue; valid_before: no limit), values beyond 32 bits, the last second of a datetime and the values after it
+    (InvalidValue, never reduced into range); also cut right behind the field, so that the ORDER of the checks shows"""
+    def gen(rng):
+        import datetime
+        import dateutil.tz
+        cert = certificate(kind)(rng)
+        epoch = datetime.datetime(1970, 1, 1, tzinfo=dateutil.tz.UTC)
+        marks = (0x3a12345678, 0x3a9abcdef0)          # two second counts whose eight bytes are found again in the wire form
+        cert.valid_after = epoch + datetime.timedelta(seconds=marks[0])
+        cert.valid_before = epoch + datetime.timedelta(seconds=marks[1])
+        data = bytes(cert.compose())
+        pos = [data.find(m.to_bytes(8, 'big')) for m in marks]
+        if min(pos) < 0 or pos[1] != pos[0] + 8 or data.count(marks[0].to_bytes(8, 'big')) != 1:
+            return data
+        values = [2 ** 64 - 1, 2 ** 64 - 1, 2 ** 64 - 2, 2 ** 63, 2 ** 32, 7258118400, MAX_EPOCH_SECONDS, MAX_EPOCH_SECONDS + 1,
+                  rng.randrange(2 ** 32, MAX_EPOCH_SECONDS + 1), rng.randrange(MAX_EPOCH_SECONDS + 1, 2 ** 64), 0, 1600000000]
+        after = rng.choice(values)
+        before = rng.choice(values)
+        if rng.random() < 0.3:
+            before = marks[1]
+        elif rng.random() < 0.3:
+            after = rng.choice([0, 2 ** 32, 7258118400])
+        out = data[:pos[0]] + after.to_bytes(8, 'big') + before.to_bytes(8, 'big') + data[pos[1] + 8:]
+        r = rng.random()
+        if r < 0.15:
+            return out[:pos[0] + 8]                    # ends right behind valid_after
+        if r < 0.3:
+            return out[:pos[1] + 8]                    # ends right behind valid_before
+        return out
+    return gen
+
+
+RAW_INPUTS = [
+    ('SshHostCertificateV01RSA', raw_certificate('RSA')),
+    ('SshHostCertificateV01DSS', raw_certificate('DSS')),
+    ('SshHostCertificateV01ECDSA', raw_certificate('ECDSA')),
+    ('SshHostCertificateV01EDDSA', raw_certificate('EDDSA')),
 ]
 
 MODELLED_GENERATORS = list(ALL_GENERATORS)
